@@ -192,9 +192,27 @@ class History:
         MON.counters.clear()
 
 
-def run_histories(ctx, props, profile_for):
-    """Main loop shared by the C01, C03-C05, C07, C08 checks."""
+def run_histories(ctx, props, profile_for, master_every=4, mprofile_for=None):
+    """Main loop shared by the C01, C03-C08 checks: Cell-level histories, and
+    every `master_every`-th case a Master-level history (real Master/Loader on
+    the fake ZooKeeper) evaluated with the same oracles."""
+    from ..master import engine as mengine
+    from ..master import drv as mdrv
     for idx, rng in ctx.cases():
+        if master_every and idx % master_every == master_every - 1:
+            mh = mengine.MHistory(ctx, rng, mprofile_for(rng) if mprofile_for else mdrv.MProfile(), props)
+            try:
+                mh.run()
+            finally:
+                env.VClock.uninstall()
+            mh.absorb_counters()
+            summ = mh.summary()
+            ctx.count('master_cycles', mh.cycles)
+            ctx.count('master_histories')
+            nt = mh.flags.get(ctx.pid, False)
+            ctx.done(case_desc=('master', summ['ops'], summ['servers'], summ['apps']), nontrivial=nt,
+                     sample=dict(history=idx, **summ) if nt and idx % 16 == 3 else None, evals=max(1, mh.cycles))
+            continue
         pf = profile_for(rng)
         h = History(ctx, rng, pf, props)
         try:
